@@ -141,6 +141,40 @@ def signature(kind, name, payload):
 	return f'{kind}:{name}:' + hashlib.sha256(repr(payload).encode('utf8')).hexdigest()[:12]
 
 
+def grow_in_place_problem(check, net, generator, name, model):
+	for field in codec.settable_fields(model):
+		if not codec.is_array(field) or codec.is_byte_array(field) or field.is_conditional or field.field_type.sort_key:
+			continue
+		if isinstance(field.field_type.size, int) and not field.field_type.is_expandable:
+			continue
+		tree = generator.struct(model, 0)
+		try:
+			obj = codec.to_object(net, name, tree)
+			extra_tree = generator.named(field.field_type.element_type, 1)
+			extra = codec.to_object(net, field.field_type.element_type, extra_tree)
+		except codec.Inadmissible:
+			continue
+		first = limited(lambda o=obj: (o.size, bytes(o.serialize())))
+		if first[0] != 'ok':
+			continue
+		check.case(f'{net.name}:grow-in-place', (name, field.name, codec.render(tree)))
+		getattr(obj, '_' + codec.fix_name(field.name)).append(extra)
+		second = limited(lambda o=obj: (o.size, bytes(o.serialize())))
+		expected = ('S', tree[1], [(member, value + [extra_tree] if member == field.name else value) for member, value in tree[2]])
+		shown = codec.render(expected)
+		if second[0] != 'ok':
+			return shown, f'after size / serialize and then appending an element to {field.name} in place, size / serialize fail: {second[1:]}'
+		size_after, data_after = second[1]
+		if size_after != len(data_after):
+			return shown, f'after size / serialize and then appending an element to {field.name} in place, size reports {size_after} ' \
+				f'but {len(data_after)} bytes are encoded'
+		_, decoded = impl_des(net, name, data_after)
+		if decoded is None or decoded[1] != expected:
+			return shown, f'after size / serialize and then appending an element to {field.name} in place, the new encoding does not ' \
+				'decode to the current value'
+	return None
+
+
 def default_object_problem(net, name, model, parent):
 	cls = getattr(net.module, name)
 	outcome_ = limited(cls)
@@ -228,7 +262,12 @@ def run_network(check, net, per_class, per_class_mutants):
 		for tree in class_values():
 			try:
 				obj = codec.to_object(net, name, tree)
-			except codec.Inadmissible:
+			except codec.Inadmissible as ex:
+				# the generator only produces values the schema admits (integers within their width, declared enum members, flag subsets)
+				check.case(f'{net.name}:ser:refused-at-construction', (name, codec.render(tree)))
+				check.fail(signature('admissible-value-refused', name, codec.render(tree)),
+					f'{net.name}.{name}: a schema-admissible value is refused when the object is built ({str(ex)[:120]})',
+					{'network': net.name, 'class': name, 'value': codec.render(tree), 'op': 'construct'})
 				continue
 			ser = impl_ser(obj)
 			exprs.append(f'case_ser {net.coq_schema} "{name}" {codec.coq_value(tree)}')
@@ -281,6 +320,12 @@ def run_network(check, net, per_class, per_class_mutants):
 			if problem:
 				check.fail(signature('default-object', name, problem), f'{net.name}.{name}: {problem}',
 					{'network': net.name, 'class': name, 'op': 'default-object'})
+		# P: use the object (size, serialize), grow one of its arrays IN PLACE, use it again: size and bytes describe the current value
+		if not is_abstract and codec.kind(model) == 'Struct':
+			problem = grow_in_place_problem(check, net, generator, name, model)
+			if problem:
+				check.fail(signature('stale-after-in-place-growth', name, problem[0]), f'{net.name}.{name}: {problem[1]}',
+					{'network': net.name, 'class': name, 'value': problem[0], 'op': 'size / serialize, append in place, size / serialize'})
 		if is_abstract or not encodings:
 			continue
 		mutant_stream = [mutate(rng, rng.choice(encodings)) for _ in range(per_class_mutants)]
